@@ -685,8 +685,21 @@ func c12Build(r *vk.RNG, o c12Opts) *c12Scenario {
 		sc.agg = vk.Pick(r, []string{"or", "or", "", "", "and"})
 	}
 	fd.FilterAgg = sc.agg
+	if sc.agg != "" && r.Chance(1, 8) {
+		// the keyword in another letter case: refused at start-up, or it means what the lower-case word means
+		fd.FilterAgg = vk.Pick(r, []string{strings.ToUpper(sc.agg), strings.ToUpper(sc.agg[:1]) + sc.agg[1:]})
+	}
 	sc.d = &fd
 	return sc
+}
+
+// aggSpellingRefused: the configuration spelled filter_agg in another letter case and start-up refused it.
+func (sc *c12Scenario) aggSpellingRefused(c *vk.Case, err error) bool {
+	if sc.d.FilterAgg != sc.agg && strings.Contains(err.Error(), "filter_agg") {
+		c.Obs("filter_agg_other_case_refused", 1)
+		return true
+	}
+	return false
 }
 
 // c12Filter picks operator arguments among observed values, their neighbours
@@ -1202,6 +1215,7 @@ type refConn struct {
 	set        map[string]bool
 	lookups    int
 	bad        []string
+	asked      map[string]bool
 }
 
 func (rc *refConn) QueryRow(_ context.Context, q string, args ...any) pgx.Row {
@@ -1219,6 +1233,10 @@ func (rc *refConn) QueryRow(_ context.Context, q string, args ...any) pgx.Row {
 		rc.bad = append(rc.bad, fmt.Sprintf("%s with argument of type %T", q, args[0]))
 		return noRow{}
 	}
+	if rc.asked == nil {
+		rc.asked = map[string]bool{}
+	}
+	rc.asked[key] = true
 	if rc.set[key] {
 		return boolRow{true}
 	}
@@ -1279,9 +1297,14 @@ func c12DirectRun(c *vk.Case, sc *c12Scenario, sample bool) {
 	case p != nil:
 		c.Violate(p.key()+":building-destination", merge(detail, map[string]any{"panic": p}), "building the destination panicked: %s", p.Val)
 		return
+	case err != nil && sc.aggSpellingRefused(c, err):
+		return
 	case err != nil:
 		c.Violate("setup-rejected:"+errKey(err.Error()), merge(detail, map[string]any{"error": err.Error()}), "a declaration of the supported domain was rejected: %v", err)
 		return
+	}
+	if sc.d.FilterAgg != sc.agg {
+		c.Obs("filter_agg_other_case_accepted", 1)
 	}
 	rc := &refConn{table: refTable, col: "who", set: sc.refSet}
 	_, err, p = directInsert(dest, rc, sc.chainID, ethBlocks(blocks))
@@ -1320,6 +1343,45 @@ func c12DirectRun(c *vk.Case, sc *c12Scenario, sample bool) {
 	if sample {
 		c.Sample(map[string]any{"path": "direct", "declaration": sc.describe(), "config": confJSON, "items": len(items), "emitted": len(got)})
 	}
+	// the referenced table changes between two batches of the same running destination: every looked-up value
+	// flips its membership; the second batch (the same blocks again) must be judged against the table as it is now
+	if sc.ref == nil || len(rc.asked) == 0 || len(c.Res.Violations) > 0 {
+		return
+	}
+	flipped := map[string]bool{}
+	for k := range rc.asked {
+		if !sc.refSet[k] {
+			flipped[k] = true
+		}
+	}
+	sc.refSet = flipped
+	rc2 := &refConn{table: refTable, col: "who", set: flipped}
+	_, err, p = directInsert(dest, rc2, sc.chainID, ethBlocks(blocks))
+	c.Obs("direct_inserts_after_reference_change", 1)
+	detail = merge(detail, map[string]any{"phase": "second batch through the same destination after every looked-up value changed its membership in the referenced table"})
+	switch {
+	case p != nil:
+		c.Violate(p.key()+":insert", merge(detail, map[string]any{"panic": p}), "Integration.Insert panicked: %s", p.Val)
+		return
+	case err != nil:
+		c.Violate("insert-error:"+errKey(err.Error()), merge(detail, map[string]any{"error": err.Error()}), "Integration.Insert failed on well-formed blocks and documented filters: %v", err)
+		return
+	}
+	got, cerr = copiedRows(rc2.cols, colTypes, rc2.rows)
+	if cerr != nil {
+		c.Inconclusive("direct path: %v", cerr)
+		return
+	}
+	gotIDs = map[string]int{}
+	for _, row := range got {
+		gotIDs[c12ID(o.mode, row)]++
+	}
+	items, ok = sc.evaluate(c, blocks, gotIDs)
+	if !ok {
+		return
+	}
+	c.Evals(int64(len(items)) + 1)
+	sc.judge(c, "direct:reference-table-changed", items, gotIDs, detail, nil)
 }
 
 // parseAddrJSON reads the address member of an eth_getLogs filter as logged by simnode.
@@ -1601,6 +1663,9 @@ func c12PipeRun(c *vk.Case, r *vk.RNG, sc *c12Scenario, subName string, sample b
 	}
 	defer env.Close()
 	detail := map[string]any{"declaration": sc.describe(), "config": string(env.ConfJSON), "sub_case": subName}
+	if env.SetupErr != nil && sc.aggSpellingRefused(c, env.SetupErr) {
+		return
+	}
 	if env.SetupErr != nil {
 		c.Violate("setup-rejected:"+env.SetupStage+":"+errKey(env.SetupErr.Error()), merge(detail, map[string]any{"error": env.SetupErr.Error()}), "a declaration of the supported domain was rejected at %s: %v", env.SetupStage, env.SetupErr)
 		return
